@@ -156,6 +156,11 @@ type generator struct {
 // generating a new such node if none exist.
 func (gen *generator) node(dst graph.NodeAdder, id string) graph.Node {
 	if n, ok := gen.ids[id]; ok {
+		if gen.isInSubgraph() {
+			// The node is a member of the subgraph vertex even when it
+			// was first seen elsewhere.
+			gen.appendSubgraphNode(n)
+		}
 		return n
 	}
 	n := dst.NewNode()
